@@ -23,7 +23,8 @@ Inductive case :=
 (* form_one_hot_covariance: raw = arguments of the first covariance_class(...) call, final = hyperparameters of the
    returned covariance *)
 | CBand (numerical : list nat) (cat_ls factor : Q) (dim : nat) (pts : list point) (raw final : list (option Q))
-(* form_sigopt_parzen_estimator_for_search: out = (lower_points, greater_points, gamma) or None on the error *)
+(* form_sigopt_parzen_estimator_for_search: out = (lower_points, greater_points, gamma) or None on the error; the threshold
+   split is compared when the model forces it (some violator and satisfiers > dim), the constructor's split with gamma0 otherwise *)
 | CSearch (gamma0 : Q) (dim : nat) (pts : list point) (vals : list Q) (perm : option (list nat))
           (thr : list (option Q)) (pf : list (list Q)) (out : option (list point * list point * Q))
 (* a history on ONE live estimator object whose two covariances evaluate the rational kernel ParzenHist.rkern:
@@ -189,7 +190,7 @@ Definition check (c : case) : bool :=
       | Some (lo, gr, g) =>
           negb (is_err (split_sizes gamma0 0 (length pts))) &&
           let viol := violations thr pf in
-          if Nat.ltb dim (length pts - count_true viol) then
+          if search_forced dim (length pts) (count_true viol) then
             let '(mlo, mgr, mg) := search_split dim pts viol ([], [], 0) in
             rows_eqb mlo lo && rows_eqb mgr gr && close mg g
           else split_case_ok gamma0 0 pts vals perm (OOk lo gr) && Qeq_bool g gamma0
